@@ -20,7 +20,7 @@ import (
 func Spec() *run.Spec {
 	return &run.Spec{
 		ID: "C12", Level: "exploration",
-		Rule: "phase histories: case = one edit history of 5-80 operations through the graph.Instance methods the HTTP handlers call (CreateNode over every registered node type incl. harness-registered order-sensitive array / formatting nodes, ConnectNodes incl. bursts that take array inputs to 0-15 entries, DeleteNodeInputConnection, UpdateParameter for every parameter type (image uploads: PNGs of every colour model from Go's default encoder, and foreign encodings: JPEG, PNGs written with no / fastest / best compression, PNGs with tEXt / pHYs / tIME chunks; the same bytes also as File values), SetName/SetDescription, SetNodeAsProducer, SetMetadata/DeleteMetadata (positions, notes, camera, custom trees; half of the values are at the edges of JSON: empty array, empty object, nested empties 1-4 deep, arrays of empties, objects like {tags:[],groups:[{members:[]}]}, null, empty string / 0 / false, numbers around 2^53, 1e21, -0, MaxFloat64, non-ASCII / empty / odd keys, nesting 5-16 deep; posted as fields of nodes.<id> and notes.<k> and under custom.*), DeleteNode of nodes nothing depends on (every other time after a nodes.<id>.position metadata entry was posted for it, which stays behind; a fifth of the posted positions are for ids that no node ever had), generating an artifact mid-history), with intermediate saves like the editor's autosave (App.Schema() after every edit / after a random fifth of the edits / never; every tenth intermediate file is itself loaded into a fresh application and compared with the graph at that moment), starting from an empty application or from a hand-built App.Files graph; " +
+		Rule: "phase histories: case = one edit history of 5-80 operations through the graph.Instance methods the HTTP handlers call (CreateNode over every registered node type incl. harness-registered order-sensitive array / formatting nodes, ConnectNodes incl. bursts that take array inputs to 0-15 entries, DeleteNodeInputConnection, UpdateParameter for every parameter type (image uploads: PNGs of every colour model from Go's default encoder, and foreign encodings: JPEG, PNGs written with no / fastest / best compression, PNGs with tEXt / pHYs / tIME chunks; the same bytes also as File values), SetName/SetDescription, SetNodeAsProducer, SetMetadata/DeleteMetadata (positions, notes, camera, custom trees; half of the values are at the edges of JSON: empty array, empty object, nested empties 1-4 deep, arrays of empties, objects like {tags:[],groups:[{members:[]}]}, null, empty string / 0 / false, numbers around 2^53, 1e21, -0, MaxFloat64, non-ASCII / empty / odd keys, nesting 5-16 deep; posted as fields of nodes.<id> and notes.<k> and under custom.*), DeleteNode of nodes nothing depends on (every other time after a nodes.<id>.position metadata entry was posted for it, which stays behind; a fifth of the posted positions are for ids that no node ever had), generating an artifact mid-history), with intermediate saves like the editor's autosave (App.Schema() after every edit / after a random fifth of the edits / never; every tenth intermediate file is itself loaded into a fresh application and compared with the graph at that moment), starting from an empty application or from a hand-built App.Files graph; half of the histories have 2-4 sessions: the graph is saved, the file is loaded into a fresh application (and compared), and the history continues ON THAT APPLICATION with 3-27 more operations, mostly beginning with a CreateNode (every id CreateNode returns must be new among the live nodes), before 3 of 4 such saves a node other than the highest-numbered one is deleted; " +
 			"then S1 = App.Schema(), a fresh generator.App applies S1, and the two applications are compared through public observers (node ids and types, per node the map input name -> dependency id:port with array inputs by position, parameter ToMessage()/name/Schema(), producers, metadata tree, application fields), every producer's artifact is generated on both sides and compared, and S2 = fresh.Schema() must equal S1 byte for byte. The harness keeps a mirror of every SetMetadata / DeleteMetadata call; the tree the edited application hands out, the metadata in the saved file, the tree of the reloaded application, every node's Schema() metadata and Schema().Notes (edited and reloaded) must equal the mirror as canonical JSON ([] is not null, {} is not null). " +
 			"Non-trivial: the saved graph has an array input with >= 10 connections or >= 3 parameter types. Distinctness: start state / node-count bucket / longest array bucket / parameter-type count / producer count / deletions / metadata. " +
 			"phase large-arrays: one array input of an order-sensitive harness node receives 352, 1000-1200, 256, 600, 257, 400, 100, 255 (then also random 100-1200) connections from 3-12 sources (parameters and harness nodes of the element type, random picks), with 2-4 disconnects in the middle, a few intermediate saves (one of them reloaded and compared, mostly past position 256), a text producer over the array where the node is string-valued; then the same save / reload / compare / re-save / artifact checks. " +
@@ -50,6 +50,10 @@ func Spec() *run.Spec {
 			"ufo_producers_compared":                                    1,
 			"ufo_file_reproduced":                                       1,
 			"parameters_compared":                                       200,
+			"histories_with_several_sessions":                           100,
+			"sessions_per_history":                                      300,
+			"nodes_created_after_reload":                                500,
+			"reloads_after_deleting_a_non_highest_node":                 100,
 			"intermediate_saves":                                        2000,
 			"intermediate_saves_reloaded_and_compared":                  100,
 			"posted_metadata_trees_compared_by_content":                 400,
@@ -153,20 +157,81 @@ func runHistory(c *run.Ctx, res *run.Result) *hist {
 	// application and compared with the graph as it is at that moment.
 	mode := []string{"every-edit", "random", "random", "never"}[rr.Intn(4)]
 	h.autosave = mode
-	for i := 0; i < nops && !h.dead; i++ {
-		h.step()
-		if h.dead || mode == "never" || (mode == "random" && rr.Intn(5) != 0) {
-			continue
+	steps := func(n int) {
+		for i := 0; i < n && !h.dead; i++ {
+			h.step()
+			if h.dead || mode == "never" || (mode == "random" && rr.Intn(5) != 0) {
+				continue
+			}
+			if rr.Intn(10) == 0 {
+				h.logf("save+reload")
+				res.Count("intermediate_saves", 1)
+				checkReload(c, res, h, false)
+			} else {
+				h.logf("save")
+				res.Count("intermediate_saves", 1)
+				h.try("App.Schema (autosave)", func() { h.app.Schema() })
+			}
 		}
-		if rr.Intn(10) == 0 {
-			h.logf("save+reload")
-			res.Count("intermediate_saves", 1)
-			checkReload(c, res, h, false)
-		} else {
-			h.logf("save")
-			res.Count("intermediate_saves", 1)
-			h.try("App.Schema (autosave)", func() { h.app.Schema() })
+	}
+	steps(nops)
+	// Further sessions: the graph is saved, the file is loaded into a fresh application
+	// (compared like every saved file) and the history CONTINUES on that application:
+	// what the user does when he opens his graph again the next day. Ids, the metadata
+	// mirror and everything else the harness knows carry over. Before most of these
+	// saves a node other than the highest-numbered one is deleted.
+	sessions := 1
+	if rr.Intn(2) == 0 {
+		sessions = 2 + rr.Intn(3)
+	}
+	for s := 1; s < sessions && !h.dead; s++ {
+		if rr.Intn(4) != 0 {
+			maxN := -1
+			for _, o := range h.nodes {
+				if k := nodeNumber(o.id); k > maxN {
+					maxN = k
+				}
+			}
+			if n := h.pick(func(n *hnode) bool { return nodeNumber(n.id) < maxN && h.dependents(n.id) == 0 }); n != nil {
+				h.deleteNode(n)
+			}
 		}
+		if h.dead {
+			break
+		}
+		h.logf("save, load into a fresh application, continue there (session %d)", s+1)
+		checkReload(c, res, h, false)
+		other := 0
+		for _, v := range res.Violations {
+			if !(v.Class == "parameter-value-differs" && strings.Contains(v.Site, "(parameter.File)")) {
+				other++ // anything but the known File-parameter finding ends the history here
+			}
+		}
+		if h.dead || other > 0 {
+			break
+		}
+		var file []byte
+		if !h.try("App.Schema", func() { file = h.app.Schema() }) {
+			break
+		}
+		app2, g2, err, p := reload(file)
+		if err != nil || p != nil {
+			break // reported by checkReload above
+		}
+		if h.holeBelowHighest {
+			res.Count("reloads_after_deleting_a_non_highest_node", 1)
+		}
+		h.app, h.g, h.session, h.holeBelowHighest = app2, g2, s, false
+		res.Count("sessions_continued_on_a_reloaded_application", 1)
+		if rr.Intn(5) != 0 { // the new session mostly begins with a new node
+			h.create(h.cat.types[rr.Intn(len(h.cat.types))])
+		}
+		steps(3 + rr.Intn(25))
+	}
+	if sessions > 1 && !h.dead {
+		res.Count("histories_with_several_sessions", 1)
+		res.Count("sessions_per_history", int64(h.session+1))
+		res.SetAdd("session_counts", fmt.Sprint(h.session+1))
 	}
 	return h
 }
